@@ -77,6 +77,9 @@ fn build_case<K: TestKey>(p: &Params, id: u64) -> Case<K> {
         // first-time initialisation WITH the pre-created tree of 65 536 directories; kill points
         // are sampled (every non-mkdir call, a dozen of the mkdirs)
         9 if p.mode == "kill" => ("pre-create", 3, true),
+        // one content above 4 MiB written with a single call (early-writeback / staged-sync
+        // shortcuts live at such sizes), between small ones
+        9 if p.mode == "power" => ("large-blob", 1000, true),
         9 => ("transactions", 3, true),
         7 if p.mode == "kill" => ("cross-device-shards", 1000, true),
         7 => ("rollover", 2, true),
@@ -127,6 +130,14 @@ fn build_case<K: TestKey>(p: &Params, id: u64) -> Case<K> {
         });
         ops.push(Op::Put { key: g.keys[1].clone(), content: g.contents[0], chunks: vec![] });
         ops.push(Op::Remove { key: long });
+        for op in &ops {
+            mr.step(op);
+        }
+    } else if class == "large-blob" {
+        let big = Content::new(990, (4 << 20) + rng.usize(1 << 20));
+        ops.push(Op::Put { key: g.keys[0].clone(), content: Content::new(991, 30), chunks: vec![] });
+        ops.push(Op::Put { key: g.keys[1].clone(), content: big, chunks: vec![] });
+        ops.push(Op::Put { key: g.keys[0].clone(), content: Content::new(992, 31), chunks: vec![] });
         for op in &ops {
             mr.step(op);
         }
@@ -1850,6 +1861,25 @@ fn build_fail_case<K: TestKey>(p: &Params, id: u64) -> Case<K> {
             Op::Remove { key: k(0) },
             Op::Put { key: k(3), content: Content::new(713, 24), chunks: vec![] },
             reopen,
+        ];
+        return c;
+    }
+    if id % 10 == 9 {
+        // a blob whose unlink may be the call that fails is referenced again by a later put, and
+        // then other blobs lose their last reference: whatever the store remembers about the
+        // failed deletion must not be acted on once the content is live again
+        c.class = "rereference-after-failed-unlink";
+        c.n_ops = *rng.pick(&[3u64, 1000]);
+        let k = |i: usize| K::bulk(i, 5);
+        let a = Content::new(720, 26);
+        c.ops = vec![
+            Op::Put { key: k(0), content: a, chunks: vec![] },
+            Op::Put { key: k(0), content: Content::new(721, 27), chunks: vec![] },
+            Op::Put { key: k(1), content: a, chunks: vec![] },
+            Op::Put { key: k(2), content: Content::new(722, 28), chunks: vec![] },
+            Op::Put { key: k(2), content: Content::new(723, 29), chunks: vec![] },
+            Op::Remove { key: k(0) },
+            Op::Put { key: k(3), content: Content::new(724, 30), chunks: vec![] },
         ];
         return c;
     }
